@@ -98,6 +98,20 @@ package compressor
 
 //@ ext github.com/pierrec/lz4/v4.UncompressBlock
 //@   ensures (len(dst) >= ghost.lz4_decoded_len ==> result1 == nil && result0 == ghost.lz4_decoded_len) && (len(dst) < ghost.lz4_decoded_len ==> result1 != nil)
+// lz4 block compression (assumed, from the library's documentation): with a destination of at least
+// CompressBlockBound(len(src)) bytes a non-empty source always yields a non-empty block; with a
+// smaller destination the answer (0, nil) means "did not fit" - not "compressed to nothing"
+//@ ghost var lz4_bound int
+//@ ext github.com/pierrec/lz4/v4.CompressBlockBound
+//@   ensures result == ufi("lz4.bound", n) && result >= n
+//@ ext (*github.com/pierrec/lz4/v4.Compressor).CompressBlock
+//@   ensures result0 >= 0 && result0 <= len(dst)
+//@   ensures result1 == nil && len(src) > 0 && len(dst) >= ufi("lz4.bound", len(src)) ==> result0 > 0
+//@ func (*Lz4).Compress
+//@   prop C08
+//@   ensures success-is-a-block-that-can-be-read-back: result1 == nil ==> len(result0) > 0 && len(result0) < len(data)
+//@   at call Compressor).CompressBlock#1: assert destination-holds-the-worst-case: len(arg_dst) >= ufi("lz4.bound", len(data))
+//@   may_panic
 //@ func (*Lz4).Decompress
 //@   prop C08
 //@   requires len(in) >= 1 && ghost.lz4_decoded_len >= 0 && ghost.lz4_decoded_len <= 255 * len(in)
